@@ -133,5 +133,27 @@ def f2_shift(S0: int, k: int) -> bool:
     pre: 0 <= k <= 3
     post: _
     """
-    from vfy.lemmas.c13 import n1_shift
-    return n1_shift(S0, k)
+    from vfy.lemmas.c13 import shift_body          # (a helper without contract, see there)
+    return shift_body(S0, k)
+
+
+@lemma('F4.reader-scratch', 'C05', quick=[{'reader': r, 'k': k} for r in ('Heading', 'CodeFence') for k in (1, 2)] + [{'reader': 'Heading', 'k': 3}, {'reader': 'HtmlBlock', 'k': 1}],
+       thorough=[{'reader': r, 'k': k} for r in ('Heading', 'CodeFence', 'HtmlBlock') for k in (1, 2, 3)] + [{'reader': 'Heading', 'k': 4}], timeout=600, per_path=60,
+       covers=['block_token.py:Heading.start', 'block_token.py:Heading.read', 'block_token.py:CodeFence.start', 'block_token.py:CodeFence.read',
+               'block_token.py:HtmlBlock.start', 'block_token.py:HtmlBlock.read'],
+       note="(= C11-G1b) the per-class scratch state written by start() and consumed by read() cannot leak from a block of A into a block of B: "
+            "a symbolic first line read once from an ARBITRARY symbolic scratch state and once from the fresh state gives the same start() verdict, read() result and cursor")
+def f4_reader_scratch(c1: int, c2: int, c3: int, c4: int, level: int, s1: int, s2: int, oi0: int, endnone: bool) -> bool:
+    """
+    pre: scratch_pre(P('reader'), P('k'), c1, c2, c3, c4, s1, s2)
+    post: _
+    """
+    from vfy.lemmas.c11 import reader_scratch_body          # (a helper without contract)
+    return reader_scratch_body(c1, c2, c3, c4, level, s1, s2, oi0, endnone)
+
+
+def scratch_pre(reader, k, c1, c2, c3, c4, s1, s2):
+    from vfy.lemmas.c11 import HTML_ALPH, no_nl
+    from vfy.lemmas.common import cp_ok
+    ok = all_in(HTML_ALPH, k, c1, c2, c3, c4) if reader == 'HtmlBlock' else all_ok(cp_ok, k, c1, c2, c3, c4)
+    return ok and no_nl(k, c1, c2, c3, c4) and cp_ok(s1) and cp_ok(s2)
